@@ -15,17 +15,21 @@ property they target; {sib} by a sibling check where the change needs what only
 the sibling has - a transport fault or cut (C16), a second overlapping
 connection (C19), cancellation (C20), retained results (C17), a reset
 differential (C18), a pong (C08), an RSV1 rule of the message state (C13)),
-{no} not caught by design ({', '.join(sorted(nos))}:
+{no} not caught ({', '.join(sorted(nos))}). Three of them by design:
 C16-m32 is `ws.ReadHeader` answering `io.EOF` for a cut inside a header with
-no message open, which only has to be an error; C06-m69 makes a
-zero-length copy followed by Flush send nothing, which is not demanded;
-C05-m65 wraps a protocol error with %w, which errors.As and errors.Is - the
-way the checks classify errors - still recognise). Waves 5-9 asked for
+no message open, which only has to be an error; C06-m69 makes a zero-length
+copy followed by Flush send nothing, which is not demanded; C05-m65 wraps a
+protocol error with %w, which errors.As and errors.Is - the way the checks
+classify errors - still recognise. Three are gaps left open when the session
+ended (wave 20; their meta.json says what each would need): C08-m77 needs a
+control handler whose reply destination fails, C16-m78 a failing extension
+before a failing destination, C19-m77 connections that reject through hooks
+with one shared error value. Waves 5-9 asked for
 refactorings, option combinations, transport or scheduling conditions, broken
 doc-comment guarantees, cleanup/resource slips, arithmetic and boundary slips,
 ordering of side effects, option-field defaults and sibling entry points that
 diverge; 27, 26, 23, 20 and 22 of their 52 changes were missed by the checks as
-they stood (counting those that only a sibling caught as caught). Waves 10-19
+they stood (counting those that only a sibling caught as caught). Waves 10-20
 (this session) asked for performance optimisations, hardening and clean-up
 slips, two cooperating edits, state-carrying slips, API evolution, partial
 progress and error paths, resource lifecycle, boundary arithmetic,
@@ -35,8 +39,9 @@ bug fixes gone wrong, ordering and representation changes, corners of the
 API, less-travelled functions around the anchors, the library's use of its
 dependencies' contracts, and behaviour keyed on the dynamic type, shape or
 magnitude of what the caller passes, and the idioms of the package's own
-README, doc comments and example server; 5, 6, 5, 9, 4, 2, 3, 8, 14 and 2
-(the sub-agent of one property had to be started twice) were missed on first contact, the others were caught by the checks as they stood - many of the
+README, doc comments and example server, and callbacks and hooks (what the
+library's state is when it calls out, what a callback may do, what happens to
+its result); 5, 6, 5, 9, 4, 2, 3, 8, 14, 2 and 7 were missed on first contact, the others were caught by the checks as they stood - many of the
 later proposals repeat earlier ones, which is itself a sign of saturation, and
 the themes of waves 17 and 18 (what io, bufio, bytes, net/http,
 compress/flate, the pools and context promise and do not promise; fast paths
